@@ -61,7 +61,7 @@ P['C16'] = {
 }
 
 _BLOCK_ASSUME = [
-    'the stream-API contract of units/stream_prelude.vx is trusted (it abstracts stream.rs + circular_buffer.rs as seen by one block: read_buf returns any extension of the pending input, write_buf any window not shorter than the space already seen); unit ring proves the Buffer-level facts it abstracts',
+    'the stream-API contract of units/stream_prelude.vx abstracts stream.rs + circular_buffer.rs as seen by one block (read_buf returns any extension of the pending input, write_buf any window not shorter than the space already seen); its data and tag clauses are derived from the ring unit\'s contracts by the refinement theorems in units/ring/unit.vx; trusted: that the shim methods ARE those operations (Arc, mutex atomicity, mmap aliasing) and the single-producer/single-consumer environment clause',
     'each block invariant is established by the block constructor (fresh streams, initial fields) -- constructors are not under contract (they call new_stream / are macro-generated)',
     'the derive-generated work() loop of sync blocks and everything else the macro generates is NOT verified (C19 n/a)',
 ]
